@@ -458,6 +458,75 @@ def cached_interrupt_history(ctx, i):
     ctx.case({"cached-interrupt-history": True}, True)
 
 
+def two_stage_shadowed(ctx, i):
+    """Two-stage approval: a top-level interrupt answers under `decision`; the nested graph of the second stage has an
+    interrupt whose OWN output is also called `decision` and takes the first answer through an input that the wrapper
+    renames to `decision` (with_inputs(previous="decision"), with_outputs(decision="final_decision")). One pause at a
+    time; the nested interrupt is answered under the dotted key it reports; the history ends like the auto-answered run."""
+    import asyncio
+
+    from hypergraph import AsyncRunner, FunctionNode, Graph, InterruptNode
+
+    rng = ctx.rng
+    ran = []
+
+    def build(first=None, final=None):
+        def make_draft(query):
+            return ("draft", query)
+
+        def first_review(draft):
+            return first
+
+        def final_review(previous, draft):
+            return final
+
+        def summarize(previous, decision):
+            ran.append("summarize")
+            return ("summary", previous, decision)
+
+        def publish(final_decision, summary):
+            ran.append("publish")
+            return ("published", final_decision, summary)
+
+        second = Graph([InterruptNode(final_review, name="final_review", output_name="decision"), FunctionNode(summarize, name="summarize", output_name="summary")], name="second")
+        how = rng.choice(["in-then-out", "out-then-in"])
+        gn = second.as_node()
+        gn = gn.with_inputs(previous="decision").with_outputs(decision="final_decision") if how == "in-then-out" else gn.with_outputs(decision="final_decision").with_inputs(previous="decision")
+        nodes = [FunctionNode(make_draft, name="make_draft", output_name="draft"), InterruptNode(first_review, name="first_review", output_name="decision"), gn, FunctionNode(publish, name="publish", output_name="result")]
+        rng.shuffle(nodes)
+        return Graph(nodes, name="two_stage")
+
+    a1, a2 = rng.choice(["ok-1", "", 0]), rng.choice(["ok-2", "", 0])
+    case = {"program": "two-stage approval, nested interrupt output shadows the renamed wrapper input", "answers": [repr(a1), repr(a2)]}
+    import warnings
+
+    with warnings.catch_warnings():
+        warnings.simplefilter("ignore")
+        expected = asyncio.run(AsyncRunner().run(build(a1, a2), {"query": "q"}))
+        g = build()
+        r1 = asyncio.run(AsyncRunner().run(g, {"query": "q"}))
+        ctx.obs["two_stage_histories"] += 1
+        if r1.status.value != "paused" or r1.pause.node_name != "first_review":
+            ctx.violation("C14:first-pause", f"two-stage approval: first run {r1.status.value} {r1.pause}", case)
+            return
+        ran.clear()
+        r2 = asyncio.run(AsyncRunner().run(g, {"query": "q", r1.pause.response_key: a1}))
+        ctx.obs["pauses_checked"] += 2
+        if r2.status.value != "paused" or r2.pause.node_name != "second/final_review" or r2.pause.response_key != "second.decision":
+            ctx.violation("C14:nested-path", f"two-stage approval: after the first answer the run should pause at second/final_review under second.decision; got {r2.status.value} {r2.pause}", case)
+            return
+        if ran:
+            ctx.violation("C14:dependant-ran-before-answer", f"two-stage approval: {ran} ran before the nested interrupt was answered", case)
+            return
+        r3 = asyncio.run(AsyncRunner().run(g, {"query": "q", r1.pause.response_key: a1, r2.pause.response_key: a2}))
+        ctx.obs["nested_resumes"] += 1
+        if r3.status.value == "paused":
+            ctx.violation("C14:nested-resume:paused-again", f"two-stage approval: answered second/final_review under {r2.pause.response_key!r}, the run paused again at {r3.pause.node_name} showing {r3.pause.value!r}", case)
+        elif r3.status.value != "completed" or r3.values != expected.values:
+            ctx.violation("C14:nested-resume:differs-from-auto", f"two-stage approval: pause+resume ends with {r3.status.value} {core.short(r3.values)}; the auto-answered run gives {core.short(expected.values)}", case)
+    ctx.case({"two-stage-shadowed": True}, True)
+
+
 def run(ctx):
     n = 800 if ctx.tier == "quick" else 16000
     core.WARM_P = 0.0
@@ -470,6 +539,8 @@ def run(ctx):
             mapped_deep_interrupt(ctx, i)
         elif i % 40 == 27:
             cached_interrupt_history(ctx, i)
+        elif i % 40 == 17:
+            two_stage_shadowed(ctx, i)
         elif r == 4:
             nested_identity(ctx, i)
         elif r == 5:
